@@ -105,6 +105,23 @@ struct WriterKit<nop::BoundedWriter<Inner>> {
   std::size_t size() { return w.size(); }
 };
 
+// BoundedWriter whose own limit is LARGER than what the wrapped writer can take: the wrapped writer's
+// Prepare is then the only thing standing between Write and the end of the buffer
+template <typename Inner>
+struct LooseBounded {};
+template <typename Inner>
+struct WriterKit<LooseBounded<Inner>> {
+  using Writer = nop::BoundedWriter<Inner>;
+  Inner inner;
+  Writer w;
+  void init(std::uint8_t* b, std::size_t n) {
+    inner = Inner(b, n);
+    w = Writer(&inner, n + 16);
+  }
+  Writer* writer() { return &w; }
+  std::size_t size() { return w.size(); }
+};
+
 // an exactly-sized heap buffer with arbitrary (replayable) contents
 template <std::size_t MAXN>
 inline std::uint8_t* arbitrary_bytes(std::size_t n) {
